@@ -143,6 +143,30 @@ def run(ctx):
     ctx.check(not bad, "C15.replacements-mode", "C15.replacements-mode:mode-blind", w.where(fr),
               bad_msg=f"apply_replacements branches on {bad}: the built-in replacements of deprecated elements/attributes are applied in one mode only "
                       f"(e.g. compat-mode `Html::sanitize()` unwraps <font color=..> instead of rewriting it to <span data-mx-color=..>)")
+    # ---- a custom attribute-replacement list ADDS to the mode's table: the lookup falls back per attribute ------------------------------------
+    ctx.rule("C15.attr-fallback", "apply_replacements' per-attribute lookup: an attribute that the custom list for the element does not mention is still looked up in "
+                                  "the mode's deprecated-attribute table (the fallback is per attribute, not per element)")
+    dexf = D.Dex(w.lookup, adt_discr=w.adt_discr, unroll=0, inline=lambda n_: "{closure" in n_)
+    found = False
+    for cfn in [g for g in w.all_fns() if "body" in g and g["path"].startswith(CL + IMPL + "apply_replacements::{closure")]:
+        try:
+            cps = dexf.paths(cfn, [D.sym("env"), D.sym("attr")][:cfn["body"]["argc"]])
+        except D.Unrecognised:
+            continue
+        atoms = {D.show_atom(a) for p in cps for a, t in p.conds}
+        if not (any("list_replacements" in a for a in atoms) and any("mode_replacements" in a for a in atoms)):
+            continue
+        found = True
+        skipped = [p for p in cps if p.kind == "ret" and
+                   any(re.search(r"get\(env\._ref__list_replacements\.Some\.0, .*\) is None$", D.show_atom(a)) and t for a, t in p.conds) and
+                   not any("mode_replacements" in D.show_atom(a) for a, t in p.conds)]
+        ctx.check(not skipped, "C15.attr-fallback", "C15.attr-fallback:per-attribute", w.where(cfn),
+                  bad_msg="when the element has a custom replacement list that does not mention the attribute, the mode's table is not consulted: with a list added "
+                          "for `font` (ListBehavior::Add), `color` is no longer rewritten to `data-mx-color` and is then removed as a disallowed attribute")
+    if not found:
+        ctx.unrecognised("C15.attr-fallback", "C15.attr-fallback:per-attribute", w.where(w.fn(CL + IMPL + "apply_replacements")),
+                         "the closure that looks an attribute up in the custom list and in the mode table was not found")
+
     # ---- a clean class attribute is left alone ------------------------------------------------------------------------------
     ctx.rule("C15.class-untouched", "the per-attribute closure leaves a `class` value alone when no class was filtered out: the no-action verdict compares the "
                                     "NUMBER of class tokens before and after filtering; the re-joined text is only ever written (ReplaceValue), never compared "
